@@ -3,12 +3,13 @@
 # Applies a patch to a scratch worktree of /repo (never to /repo itself), runs the check against it with
 # evidence/replays redirected to a scratch directory, prints the tail of the output and the exit code, cleans up.
 patch=$1; prop=$2; scale=${3:-0.25}
+V=$(dirname "$(readlink -f "$0")")
 wt=/tmp/verif-wt-$$; out=/tmp/verif-mut-out-$$
 git -C /repo worktree add -q --detach $wt HEAD || exit 3
 trap 'git -C /repo worktree remove --force '$wt' >/dev/null 2>&1; rm -rf '$out'' EXIT
 ( cd $wt && git apply "$patch" ) || { echo "patch does not apply"; exit 3; }
 mkdir -p $out
-VERIF_REPO=$wt VERIF_SCALE=$scale VERIF_EVIDENCE_DIR=$out VERIF_REPLAY_DIR=$out /verif/check $prop > $out/log 2>&1
+VERIF_REPO=$wt VERIF_SCALE=$scale VERIF_EVIDENCE_DIR=$out VERIF_REPLAY_DIR=$out $V/check $prop > $out/log 2>&1
 code=$?
 tail -${TAILN:-5} $out/log
 echo "exit=$code"
